@@ -143,7 +143,7 @@ public:
             std::array<int,V::Size> inds = {};
             std::array<int,DIMS> as_ = as;
             for (auto j=0; j<V::Size; ++j) {
-                get_index_v<0,DIMS-1>::Do(j, inds, as);
+                get_index_v<0,DIMS-1>::Do(j, inds, as_);
 
                 for(int jt = (int)DIMS-1; jt>=0; jt--)
                 {
@@ -1567,7 +1567,7 @@ public:
             std::array<int,V::Size> inds = {};
             std::array<int,DIMS> as_ = as;
             for (auto j=0; j<V::Size; ++j) {
-                get_index_v<0,DIMS-1>::Do(j, inds, as);
+                get_index_v<0,DIMS-1>::Do(j, inds, as_);
 
                 for(int jt = (int)DIMS-1; jt>=0; jt--)
                 {
